@@ -5,7 +5,9 @@ package main
 // customizer (+EnableFormatValidation, an option that has no effect on value validation), IsMatching and the typed
 // IsMatchingJSON* helpers; under the request/response readings and with DefaultsSet (default injection: the value is
 // mutated, each mode runs on its own deep copy and the value AFTER validation is observed). Every returned *SchemaError
-// is inspected (SchemaField, JSONPointer(), Value, Reason) and located in the value as the caller finds it afterwards.
+// is inspected (SchemaField, JSONPointer(), Value, Reason) and located in the value as the caller finds it afterwards;
+// it is then observed again (JSONPointer, Error, Unwrap, JSONPointer): the error is an object the caller keeps, every
+// observation must show the same pointer (model: KinModel/C12/ErrObject.lean).
 // The same observation (with reason texts) serves C19.
 
 import (
@@ -15,8 +17,10 @@ import (
 	"math/big"
 	"reflect"
 	"strconv"
+	"strings"
 
 	"github.com/getkin/kin-openapi/openapi3"
+	"github.com/getkin/kin-openapi/openapi3filter"
 
 	"kinverif/internal/hx"
 )
@@ -27,7 +31,8 @@ func init() {
 		Rule: "the schema × value space of C01 (exhaustive over keyword atoms and compositions, string-length and discriminator families, plus the seeded random stream) and the default-injection family " +
 			"(12 object schemas with property defaults — valid, schema-violating, container, nested, read/write-only — alone, under not/items/additionalProperties/properties and in pairs under allOf/anyOf/oneOf, × 19 values); each case validated in seven ways " +
 			"(default, FailFast, MultiErrors, FailFast+MultiErrors, message customizer, IsMatching, typed IsMatchingJSON*); a schema with `default` also with DefaultsSet as request / response / plain (value after validation compared per mode); " +
-			"every *SchemaError returned directly or inside the MultiError is compared with the model's (SchemaField, JSON pointer, quoted value, order) and its pointer is resolved in the value after validation. " +
+			"every *SchemaError returned directly or inside the MultiError is compared with the model's (SchemaField, JSON pointer, quoted value, order) and its pointer is resolved in the value after validation; " +
+			"each is then observed five more times (JSONPointer, the path printed by Error, JSONPointer, Source.Pointer of openapi3filter.ConvertErrors, JSONPointer) and every observation must show the same, located pointer. " +
 			"A family of Go values outside JSON (NaN, ±Inf at depth 0–2) is compared mode against mode only. Non-trivial = the schema has at least one keyword.",
 		Exhaustive: true,
 		Gen:        genC12,
@@ -163,39 +168,116 @@ func flattenErrs(err error, out *[]error) {
 
 // describeErr renders one returned error; `located` is the property's second sentence evaluated on this error, in the
 // value as the caller finds it after validation.
-func describeErr(err error, input any) map[string]any {
+func describeErr(err error, input any) map[string]any { return c12DescribeErr(err, input, "") }
+
+// c12DescribeErr: `customText` non-empty = a message customizer returning that text is installed: where Error() returns it
+// the printed path is not observable (the property does not ask that every error honours the customizer).
+func c12DescribeErr(err error, input any, customText string) map[string]any {
 	se, ok := err.(*openapi3.SchemaError)
 	if !ok {
 		return map[string]any{"field": "<not a SchemaError>", "located": true}
 	}
-	ptr := se.JSONPointer()
-	if ptr == nil {
-		ptr = []string{}
-	}
+	// every observed pointer is snapshotted at once: a later observation must not be able to change what was seen before
+	ptr := append([]string{}, se.JSONPointer()...)
 	d := map[string]any{"field": se.SchemaField, "pointer": ptr}
 	hasValue := se.Value != nil
 	if hasValue {
 		d["value"] = canonValue(se.Value)
 	}
-	located := false
-	if found, ok := resolvePointer(input, ptr); ok {
-		located = !hasValue || hx.Canon(canonValue(found)) == hx.Canon(canonValue(se.Value))
-	} else if se.SchemaField == "required" && len(ptr) > 0 {
-		if found, ok := resolvePointer(input, ptr[:len(ptr)-1]); ok {
-			located = hasValue && hx.Canon(canonValue(found)) == hx.Canon(canonValue(se.Value))
+	locatedAt := func(ptr []string) bool {
+		if found, ok := resolvePointer(input, ptr); ok {
+			return !hasValue || hx.Canon(canonValue(found)) == hx.Canon(canonValue(se.Value))
+		} else if se.SchemaField == "required" && len(ptr) > 0 {
+			if found, ok := resolvePointer(input, ptr[:len(ptr)-1]); ok {
+				return hasValue && hx.Canon(canonValue(found)) == hx.Canon(canonValue(se.Value))
+			}
 		}
+		return false
 	}
+	located := locatedAt(ptr)
+	// the error is an object the caller keeps: observe it again (the model's `reobsSeq`: JSONPointer, Error, Unwrap,
+	// JSONPointer, openapi3filter.ConvertErrors, JSONPointer) — every observation must show the same pointer, and the property's second sentence must hold for each
+	reobs := []any{}
+	if len(ptr) > 0 {
+		p2 := append([]string{}, se.JSONPointer()...)
+		txt := se.Error()
+		_ = se.Unwrap()
+		p3 := append([]string{}, se.JSONPointer()...)
+		pe := c12ErrorTextPath(txt, ptr)
+		if customText != "" && txt == customText {
+			pe = ptr // the customised text shows no path; an error built without the customizer (the uncompilable-pattern error of schema_pattern.go) prints the usual text, whose path is checked as usual
+		}
+		// a rarely used reader of the same object: openapi3filter.ConvertErrors (Source.Pointer of the ValidationError)
+		p4 := []string{"<ConvertErrors gave no Source.Pointer>"}
+		conv := openapi3filter.ConvertErrors(&openapi3filter.RequestError{RequestBody: &openapi3.RequestBody{}, Err: se})
+		if ve, ok := conv.(*openapi3filter.ValidationError); ok && ve.Source != nil {
+			if ve.Source.Pointer == "/"+strings.Join(ptr, "/") {
+				p4 = ptr
+			} else {
+				p4 = []string{"<ConvertErrors Source.Pointer: " + c12Clip(ve.Source.Pointer) + ">"}
+			}
+		}
+		p5 := append([]string{}, se.JSONPointer()...)
+		for _, p := range [][]string{p2, pe, p3, p4, p5} {
+			if p == nil {
+				p = []string{}
+			}
+			reobs = append(reobs, p)
+			located = located && locatedAt(p)
+		}
+	} else {
+		reobs = append(reobs, []string{}, []string{}, []string{}, []string{}, []string{})
+	}
+	d["reobs"] = reobs
 	d["located"] = located
 	return d
 }
 
-func modeObs(err error, after any, withAfter bool) map[string]any {
+// c12ErrorTextPath: the path printed by (*SchemaError).Error() — `Error at "/a/b": …`. Tokens are printed verbatim (a key
+// may contain '/' or '"'), so the text is matched against the rendering of the first pointer seen; where it differs the
+// printed prefix itself is returned as a one-token path (it will not resolve).
+func c12ErrorTextPath(txt string, first []string) []string {
+	want := `Error at "`
+	for _, t := range first {
+		want += "/" + t
+	}
+	want += `": `
+	if len(txt) >= len(want) && txt[:len(want)] == want {
+		return first
+	}
+	return []string{"<Error() text: " + c12Clip(txt) + ">"}
+}
+
+func c12Clip(s string) string {
+	if len(s) > 80 {
+		return s[:80]
+	}
+	return s
+}
+
+// c12ReobsKeys: per error "pointer => pointers of the further observations"
+func c12ReobsKeys(v any) map[string]bool {
+	out := map[string]bool{}
+	m, _ := v.(map[string]any)
+	for _, e := range jlist(m["errs"]) {
+		if em, ok := e.(map[string]any); ok {
+			if _, has := em["reobs"]; has {
+				out[hx.Canon(em["pointer"])+" => "+hx.Canon(em["reobs"])] = true
+			}
+		}
+	}
+	return out
+}
+
+func modeObs(err error, after any, withAfter bool) map[string]any { return c12ModeObs(err, after, withAfter, "") }
+
+func c12ModeObs(err error, after any, withAfter bool, customText string) map[string]any {
 	errs := []any{}
 	if err != nil {
 		var flat []error
 		flattenErrs(err, &flat)
 		for _, e := range flat {
-			errs = append(errs, describeErr(e, after))
+			errs = append(errs, c12DescribeErr(e, after, customText))
 		}
 	}
 	out := map[string]any{"ok": err == nil, "errs": errs}
@@ -219,6 +301,7 @@ func runC12(c hx.Case) any {
 	// every mode validates its own fresh copy of the value; with DefaultsSet under a request/response reading the copy is
 	// mutated and handed back, otherwise it must come back as it went in
 	inj := jbool(c, "dfl") && jstr(c, "ctx") != ""
+	customText := ""
 	run := func(o ...openapi3.SchemaValidationOption) map[string]any {
 		v := goValue(c["value"])
 		fired := false
@@ -229,7 +312,7 @@ func runC12(c hx.Case) any {
 		if !inj && !jbool(c, "nonjson") && (!reflect.DeepEqual(v, pristine) || fired) {
 			unchanged = false
 		}
-		out := modeObs(e, v, inj)
+		out := c12ModeObs(e, v, inj, customText)
 		if inj {
 			out["fired"] = fired
 		}
@@ -240,9 +323,14 @@ func runC12(c hx.Case) any {
 		"multi":    run(openapi3.MultiErrors()),
 		"failfast": run(openapi3.FailFast()),
 		"ffmulti":  run(openapi3.FailFast(), openapi3.MultiErrors()),
-		// options that only customise messages, or that do not concern value validation
-		"custom": run(openapi3.SetSchemaErrorMessageCustomizer(func(e *openapi3.SchemaError) string { return "custom" }), openapi3.EnableFormatValidation())["ok"],
 	}
+	// options that only customise messages, or that do not concern value validation: same verdict, and the same errors
+	// (field, pointer, quoted value) as in default mode
+	customText = "custom"
+	cu := run(openapi3.SetSchemaErrorMessageCustomizer(func(e *openapi3.SchemaError) string { return "custom" }), openapi3.EnableFormatValidation())
+	customText = ""
+	out["custom"] = cu["ok"]
+	out["customObs"] = cu
 	if len(co) == 0 { // the helpers have no request/response reading and take no option
 		out["matching"] = s.IsMatching(goValue(c["value"]))
 		if t := typedMatching(s, goValue(c["value"])); t != nil {
@@ -336,6 +424,19 @@ func cmpC12(c hx.Case, impl any, reply map[string]any) hx.Verdict {
 			}
 		}
 	}
+	if cu, ok := im["customObs"].(map[string]any); ok {
+		for _, e := range jlist(cu["errs"]) {
+			em, _ := e.(map[string]any)
+			if !jbool(em, "located") {
+				v.IS = false
+				v.Detail = fmt.Sprintf("with a message customizer: error %v does not point at the value it quotes", hx.Canon(em))
+			}
+		}
+		if !sameStrs(errKeys(cu), errKeys(obs["dflt"]), true) {
+			v.IS = false
+			v.Detail += fmt.Sprintf(" | a message customizer changes the errors: %v, default mode %v", errKeys(cu), errKeys(obs["dflt"]))
+		}
+	}
 	if !jbool(im, "unchanged") {
 		v.IS = false
 		v.Detail += " | the validated value was modified although no default injection was asked for"
@@ -366,6 +467,13 @@ func cmpC12(c hx.Case, impl any, reply map[string]any) hx.Verdict {
 			if !sameStrs(errKeys(obs[mode]), errKeys(mm), ordered) {
 				v.IM = false
 				v.Detail += fmt.Sprintf(" | mode %s errors: impl %v model %v", mode, errKeys(obs[mode]), errKeys(mm))
+			}
+			mk := c12ReobsKeys(mm)
+			for k := range c12ReobsKeys(obs[mode]) {
+				if !mk[k] {
+					v.IM = false
+					v.Detail += fmt.Sprintf(" | mode %s: re-observing the same error (JSONPointer, Error, JSONPointer, ConvertErrors, JSONPointer) shows %s, the model's errors never change", mode, k)
+				}
 			}
 		}
 	}
